@@ -1,9 +1,9 @@
-(* Obligation C20/lognormal_cdf_limits.  Statement as printed by Coq from Inferno.C20.DistProofs; proof by reference.
+(* Obligation C20/lognormal_cdf_limits.  Statement as printed by Coq from Inferno.C20.DistLogNormal; proof by reference.
    This file contains nothing else, so the statement cannot be weakened quietly. *)
 From Coq Require Import Reals List ZArith Bool.
 From Coquelicot Require Import Coquelicot.
 From Flocq Require Import Core.Raux.
-From Inferno Require Import Base.Num Base.NumR C20.Model C20.Spec C20.DistProofs.
+From Inferno Require Import Base.Num Base.NumR Gen.Distributions C20.Model C20.Spec C20.DistLogNormal.
 Import ListNotations.
 Open Scope R_scope.
 Theorem lognormal_cdf_limits : forall (erf : R -> R) (loc' : T RN) (scale Lp Lm : R),
@@ -13,5 +13,5 @@ Theorem lognormal_cdf_limits : forall (erf : R -> R) (loc' : T RN) (scale Lp Lm 
   is_lim (fun x : R => normal_cdf RN erf (Rpower.ln x) loc' scale) p_infty (/ 2 * (1 + Lp)) /\
   filterlim (fun x : R => normal_cdf RN erf (Rpower.ln x) loc' scale) 
     (at_right 0) (locally (/ 2 * (1 + Lm))).
-Proof. exact (@Inferno.C20.DistProofs.lognormal_cdf_limits). Qed.
+Proof. exact (@Inferno.C20.DistLogNormal.lognormal_cdf_limits). Qed.
 Print Assumptions lognormal_cdf_limits.
